@@ -26,7 +26,8 @@ RULE = ('histories on one established DBusClientConnection (in-memory transport,
         'close_req: the application asks for the close and the transport lingers (replies keep arriving until the loss); sync '
         'calls are answered by a peer in the same process while transport.write() is still on the stack. Every third reply arrives '
         'glued behind a duplicate of the previous one and cut 20 bytes before its end (two reads). fd_replies: replies carrying UNIX '
-        'descriptors, in every order. The flags byte of each call is checked against expectReply and the autoStart default.')
+        'descriptors, in every order. The flags byte of each call is checked against expectReply and the autoStart default. '
+        'Replies name nobody, another peer, the bus driver or this very connection as their sender.')
 ASSUMPTIONS = ['timeout=0 / 0.0 / None all mean "no deadline" (what callRemote documents and does); all three spellings are generated',
                'user callbacks attached by the harness do not raise or re-enter']
 
@@ -98,6 +99,17 @@ def _check_result(call, idx, out, where):
     elif exp[0] == 'lost':
         if not (isinstance(r, Failure) and r is exp[1]):
             out.append(Disc('expected-loss-reason', '%s: call %d got %r' % (where, idx, r)))
+
+
+def _with_sender(fields, k, rig):
+    """Who answered: nobody says (a peer-to-peer link), another peer, the bus driver - or this very connection (it called an
+    object it exports itself; the bus hands the reply back with the caller's own unique name as SENDER)."""
+    s = [None, ':1.9', 'org.freedesktop.DBus', rig.bus_name, ':1.9'][k % 5]
+    if s is not None:
+        fields = dict(fields)
+        fields[7] = s
+        fields[6] = rig.bus_name
+    return fields
 
 
 def run_history(case):
@@ -193,7 +205,7 @@ def run_history(case):
                     sig, trees = {'str': ('s', ['msg%d' % token[0]]), 'none': ('', []),
                                   'int': ('i', [token[0]]), 'str+': ('su', ['m%d' % token[0], 9]),
                                   'empty-str': ('s', [''])}[bk]
-                    raw = R.encode_variant(token[0] + serial, 3, 1000 + token[0], {4: name, 5: serial}, sig, trees)
+                    raw = R.encode_variant(token[0] + serial, 3, 1000 + token[0], _with_sender({4: name, 5: serial}, token[0], rig), sig, trees)
                     outcome = ('remote', name, trees[0] if (trees and isinstance(trees[0], str)) else '',
                                S.normal_forms(sig, trees) if sig else [])
                 else:
@@ -201,7 +213,8 @@ def run_history(case):
                     sig, trees = p['sig'], p['trees']
                     if p.get('token'):
                         sig, trees = 'u' + sig if len(sig) < 250 else 'u', [token[0]] + (trees if len(sig) < 250 else [])
-                    raw = R.encode_variant(token[0] + serial, 2, 1000 + token[0], {5: serial}, sig, trees, little=p.get('little', True))
+                    raw = R.encode_variant(token[0] + serial, 2, 1000 + token[0], _with_sender({5: serial}, token[0], rig), sig, trees,
+                                           little=p.get('little', True))
                     outcome = None
                 if kind == 'reply2':
                     if rig2 is None:
